@@ -15,6 +15,7 @@ import (
 	"github.com/sarchlab/akita/v5/mem/memprotocol"
 	"github.com/sarchlab/akita/v5/mem/vm"
 	"github.com/sarchlab/akita/v5/mem/vm/mmu"
+	"github.com/sarchlab/akita/v5/mem/vm/mmuCache"
 	"github.com/sarchlab/akita/v5/mem/vm/tlb"
 	"github.com/sarchlab/akita/v5/messaging"
 	"github.com/sarchlab/akita/v5/modeling"
@@ -100,7 +101,8 @@ func (a *c25Agent) Tick() bool {
 		a.next++
 		progress = true
 	}
-	return progress || inflight > 0 || a.ctrlWait
+	// give up waiting after 300 cycles: a lost request then shows as an unanswered access
+	return progress || ((inflight > 0 || a.ctrlWait) && a.ticks < 300)
 }
 
 // c25Mem is the memory behind the translator: it records where accesses arrive.
@@ -129,7 +131,6 @@ func (m *c25Mem) Tick() bool {
 				hit = true
 			}
 		}
-		verifrt.Observe("dbg-arrive", rd.Address)
 		verifrt.Assert(hit, "access-reaches-the-physical-address-the-page-table-maps")
 		rsp := memprotocol.DataReadyRsp{Data: []byte{0, 0, 0, 0}}
 		rsp.ID, rsp.Src, rsp.Dst, rsp.RspTo = timing.GetIDGenerator().Generate(), m.port.AsRemote(), rd.Src, rd.ID
@@ -166,10 +167,26 @@ func VerifC25_Stack() {
 		iommu.AssignPort(n, p)
 		conn.PlugIn(p)
 	}
+	walker := messaging.RemotePort("MMU.Top")
+	if verifrt.Choice("mmu-cache", 2) == 1 {
+		// an MMU cache between the TLB and the MMU
+		mcSpec := mmuCache.DefaultSpec()
+		mcSpec.LatencyPerLevel = 1
+		mcSpec.NumReqPerCycle = 1
+		mc := mmuCache.MakeBuilder().WithRegistrar(reg).WithSpec(mcSpec).
+			WithResources(mmuCache.Resources{LowModulePort: "MMU.Top", UpModulePort: "TLB.Bottom"}).Build("MMUC")
+		for _, n := range []string{"Top", "Bottom", "Control"} {
+			p := port(mc, "MMUC."+n)
+			mc.AssignPort(n, p)
+			conn.PlugIn(p)
+		}
+		walker = "MMUC.Top"
+		verifrt.Cover("mmu-cache")
+	}
 	tlbSpec := tlb.DefaultSpec()
 	tlbSpec.NumSets, tlbSpec.NumWays, tlbSpec.MSHRSize, tlbSpec.NumReqPerCycle, tlbSpec.Latency = 1, 2, 2, 1, 1
 	theTLB := tlb.MakeBuilder().WithRegistrar(reg).WithSpec(tlbSpec).
-		WithResources(tlb.Resources{TranslationProviderMapper: &mem.SinglePortMapper{Port: "MMU.Top"}}).Build("TLB")
+		WithResources(tlb.Resources{TranslationProviderMapper: &mem.SinglePortMapper{Port: walker}}).Build("TLB")
 	for _, n := range []string{"Top", "Bottom", "Control"} {
 		p := port(theTLB, "TLB."+n)
 		theTLB.AssignPort(n, p)
